@@ -87,6 +87,27 @@ add(
     "Precondition taken from the sampler's design: the engine cannot jump over [lambda_i, cap) (staircase weights) - generated caps respect it. Time-out 240 s per lifetime (normal: < 1 s).",
 )
 
+add(
+    "C06",
+    "differential / metamorphic property testing over generated restart chains and kill schedules (Hypothesis)",
+    "One worker: a run in one go is compared byte for byte (data file, restart file minus restarted_from, order/energy/traj tables and frame "
+    "files of every live path; pid/counter-bearing file names normalised) with chains of clean stops at generated split points, for generated "
+    "seeds (not only 0), sh/wf moves, delete_old; repeated runs; restart of a finished run is a no-op. Several workers: kills with jobs in flight, "
+    "also after an earlier restart: the jobs in flight as of the last completed step are exactly the first jobs the restart issues; same "
+    "(seed, schedule, kill points) twice gives identical files. Sampled; plug-in lattice engine (exact integers at six decimals).",
+    "allowmaxlength=true for straight-vs-chain, chain-vs-chain otherwise (documented loss of the 'initial path' marker). The TurtleMD variant of the design is not built.",
+)
+add(
+    "C07",
+    "model-based property testing over generated histories with restarts/kills (Hypothesis) + differential on completion order / restart points / seed",
+    "The recorder notes seed-sequence identity and initial bit-generator state of the move and engine stream of every ensemble of every job "
+    "issued, over up to four process lifetimes with kills (jobs in flight) and clean restarts: pairwise distinct, distinct within a zero swap, "
+    "distinct from the scheduler's stream; global numpy/random generators untouched by every move. Differential: another completion order or "
+    "other clean restart points give the same streams to the same job ordinal; another seed shares none. Sampled.",
+    "A job in flight at a kill whose result was never consumed is 'the same job' when it is re-issued (recorded) or re-picked (last, unrecorded pick "
+    "reproduced from the restored generator state). Engine-class specific draws (ASE, TurtleMD, LAMMPS, CP2K) are covered with C16's machinery when registered there.",
+)
+
 NOT_YET = "check not built yet in this session (design exists in DESIGN.md §4); will be claimed once its check is registered"
 
 
